@@ -1736,7 +1736,23 @@ class Tensor:
         else:
             _prior_base_grads = None
 
-        graph = _dup.DuplicatingGraph(self if self.base is None else self.base)
+        def _restore_prior_state():
+            # a failed update leaves the target (and its base) as it was
+            self._grad, self._view_grad, self._base = _prior_state
+            if _prior_base_grads is not None and self._base is not None:
+                self._base._grad, self._base._view_grad = _prior_base_grads
+
+        graph = None
+        try:
+            # (re-routes the operations downstream of the base through placeholders)
+            graph = _dup.DuplicatingGraph(self if self.base is None else self.base)
+            # raises if `self` is no longer connected to its base
+            graph.get_path_to_base(self)
+        except Exception:
+            if graph is not None:
+                graph.restore_old_graph()
+            _restore_prior_state()
+            raise
 
         # Create copy of base so that mutation has no impact on the
         # state of any ops depending on it or its views
@@ -1786,10 +1802,7 @@ class Tensor:
                 )
         except Exception as e:
             graph.restore_old_graph()
-            # a failed update leaves the target as it was
-            self._grad, self._view_grad, self._base = _prior_state
-            if _prior_base_grads is not None and self._base is not None:
-                self._base._grad, self._base._view_grad = _prior_base_grads
+            _restore_prior_state()
             raise e
 
         placeholder_mutant_view._constant = inplace_target._constant
